@@ -613,3 +613,16 @@ func (p c01) textStrings(r *core.Result, c core.Case) {
 	r.Count("textform_strings_accepted", nontrivial)
 	_ = time.Now
 }
+
+// c01typedDecodeAny decodes bytes with whichever typed decoder accepts them (session first).
+func c01typedDecodeAny(b []byte) (interface{}, error) {
+	var lastErr error
+	for _, k := range []string{"session", "request", "response", "notification", "message"} {
+		v, err := c01typedDecode(k, b)
+		if err == nil {
+			return v, nil
+		}
+		lastErr = err
+	}
+	return nil, lastErr
+}
